@@ -172,7 +172,10 @@ def build(case):
     except TypeError as e:
         msg = str(e)
         b.error = (3 if "Some, but not all" in msg else 1 if "different positions" in msg
-                   else 2 if "positional and keyword setting" in msg else ("other", msg))
+                   else 2 if "positional and keyword setting" in msg else ["other", msg[:300]])
+        return b
+    except Exception as e:   # e.g. the generated source does not compile
+        b.error = ["other", f"{type(e).__name__}: {e}"[:300]]
         return b
     if b.mode == "class":
         b.call = getattr(b.inst, "meth")
